@@ -15,7 +15,7 @@ def suites(tier):
     q = tier == "quick"
     jobs = []
     for cfg in product(file=[0, 1], dir=[0, 1], hidden=[0, 1], skip=[0, 1]):
-        cfg.update(follow=0, nmax=4 if q else 6)
+        cfg.update(follow=0, nmax=4 if q else 7)
         jobs.append(dict(id=jid("walk", cfg), func="zzH_C19_walkfn", cfg=cfg))
     for cfg in product(file=[0, 1], dir=[0, 1], hidden=[0, 1]):
         cfg.update(follow=0, links=0)
@@ -23,5 +23,5 @@ def suites(tier):
     for cfg in product(file=[0, 1], dir=[0, 1], hidden=[0, 1], follow=[0, 1]):
         cfg.update(links=1)
         jobs.append(dict(id=jid("tree", cfg), func="zzH_C19_tree", cfg=cfg))
-    jobs.append(dict(id="opts", func="zzH_C19_opts", cfg=dict(nmax=3 if q else 4)))
+    jobs.append(dict(id="opts", func="zzH_C19_opts", cfg=dict(nmax=3 if q else 5)))
     return [src_suite("src", jobs)]
